@@ -107,6 +107,64 @@ theorem removeFields_has_field (fs : List String) (m : KV) (f : String) :
     · have hb : (f == f') = false := by simp [h]
       simp [h, hb]
 
+/-! ### AddGraph = (sweep of an unlisted name) then registration and the graph key -/
+
+/-- AddGraph after validation and the sweep: Touch, two AddField, Set(graph key). -/
+def addGraphCore (s : KState) (g : String) : KState :=
+  let s := s.touch g
+  let fs := [labelField g "v", labelField g "e"]
+  let s := { s with fields := fs ++ s.fields.filter (fun f => !fs.contains f),
+                    kv := (s.kv.set (.field (labelField g "v")) .unit).set (.field (labelField g "e")) .unit }
+  { s with kv := s.kv.set (.graph g) .unit }
+
+theorem step_addGraph (s : KState) (g : String) :
+    step s (.addGraph g) = if !validName g then (s, .err) else
+      (addGraphCore (if hasGraph s g then s else sweepGraph s g) g, .ok) := rfl
+
+theorem contains_filter (l : List String) (q : String → Bool) (f : String) :
+    (l.filter q).contains f = (q f && l.contains f) := by
+  rw [Bool.eq_iff_iff]
+  simp [List.contains_eq_mem, List.mem_filter, and_comm]
+
+theorem sweepGraph_has_field (s : KState) (g f : String) :
+    (sweepGraph s g).kv.has (.field f) = (!(graphFields s.kv g).contains f && s.kv.has (.field f)) := by
+  rw [← sweepW_kv]
+  unfold sweepW
+  rw [applyAll_append, removeFields_has_field]
+  simp [applyAll, AW.apply, has_delWhere, Pat.test]
+
+theorem sync_sweep (s : KState) (g : String) (h : FieldsSync s) : FieldsSync (sweepGraph s g) := by
+  intro f
+  rw [sweepGraph_has_field, sweepGraph_fields, contains_filter, h f]
+
+theorem sim_sweep (s t : KState) (g : String) (h : Sim s t) : Sim (sweepGraph s g) (sweepGraph t g) := by
+  obtain ⟨hkv, hfs⟩ := h
+  refine ⟨?_, fun f => ?_⟩
+  · rw [← sweepW_kv, ← sweepW_kv, hkv]
+  · rw [sweepGraph_fields, sweepGraph_fields, contains_filter, contains_filter, hkv, hfs]
+
+theorem sync_addGraphCore (s : KState) (g : String) (h : FieldsSync s) : FieldsSync (addGraphCore s g) := by
+  intro f
+  have hf : decide (f ∈ s.fields) = s.kv.has (.field f) := by rw [← List.contains_eq_mem]; exact h f
+  simp only [addGraphCore, KState.touch, has_set]
+  rw [Bool.eq_iff_iff]
+  simp only [List.contains_iff_mem, List.mem_append, List.mem_filter, List.mem_cons, List.not_mem_nil, or_false,
+    Bool.or_eq_true, decide_eq_true_eq, SKey.field.injEq, Bool.not_eq_true', reduceCtorEq, false_or]
+  have hf' : f ∈ s.fields ↔ s.kv.has (.field f) = true := by rw [← hf]; simp
+  rw [hf']
+  by_cases h1 : f = labelField g "v"
+  · simp [h1]
+  · by_cases h2 : f = labelField g "e"
+    · simp [h2]
+    · have h1' : ¬ labelField g "v" = f := fun e => h1 e.symm
+      have h2' : ¬ labelField g "e" = f := fun e => h2 e.symm
+      simp [h1, h2, h1', h2']
+
+theorem sim_addGraphCore (s t : KState) (g : String) (h : Sim s t) : Sim (addGraphCore s g) (addGraphCore t g) := by
+  obtain ⟨hkv, hfs⟩ := h
+  refine ⟨by simp only [addGraphCore, KState.touch, hkv], fun f => ?_⟩
+  simp only [addGraphCore, KState.touch, List.contains_append, contains_filter, hfs]
+
 theorem step_delGraph_fields (s : KState) (g : String) :
     (step s (.delGraph g)).1.fields = s.fields.filter (fun f => !(graphFields s.kv g).contains f) := by
   have e : graphFields s.kv g = List.filter (fun f => decide (fieldGraph f = g))
@@ -126,26 +184,15 @@ theorem sync_step (s : KState) (op : Op) (h : FieldsSync s) : FieldsSync (step s
   have hf : decide (f ∈ s.fields) = s.kv.has (.field f) := by rw [← List.contains_eq_mem]; exact h f
   cases op with
   | addGraph g =>
-    unfold step writes
+    rw [hkv, step_addGraph]
     by_cases hv : validName g = true
-    · simp only [hv, Bool.not_true, Bool.false_eq_true, if_false, KState.touch, applyAll, List.foldl_cons, List.foldl_nil,
-        AW.apply, has_set]
-      rw [Bool.eq_iff_iff]
-      simp only [List.contains_iff_mem, List.mem_append, List.mem_filter, List.mem_cons, List.not_mem_nil, or_false,
-        Bool.or_eq_true, decide_eq_true_eq, SKey.field.injEq, Bool.not_eq_true', reduceCtorEq, false_or]
-      have hf' : f ∈ s.fields ↔ s.kv.has (.field f) = true := by rw [← hf]; simp
-      rw [hf']
-      by_cases h1 : f = labelField g "v"
-      · simp [h1]
-      · by_cases h2 : f = labelField g "e"
-        · simp [h2]
-        · have h1' : ¬ labelField g "v" = f := fun e => h1 e.symm
-          have h2' : ¬ labelField g "e" = f := fun e => h2 e.symm
-          simp [h1, h2, h1', h2']
-    · simp [hv, applyAll, hf]
+    · simp only [hv, Bool.not_true, Bool.false_eq_true, if_false]
+      by_cases hg : hasGraph s g = true
+      · simp only [hg, if_true]; exact sync_addGraphCore s g h f
+      · simp only [hg, Bool.false_eq_true, if_false]; exact sync_addGraphCore _ g (sync_sweep s g h) f
+    · simp only [hv, Bool.not_false, if_true]; exact h f
   | delGraph g =>
-    unfold writes
-    rw [applyAll_append, removeFields_has_field]
+    rw [writes_delGraph, applyAll_append, removeFields_has_field]
     simp only [applyAll, List.foldl_cons, List.foldl_nil, AW.apply, has_del, has_delWhere, Pat.test]
     rw [step_delGraph_fields]
     have hfs : ∀ (fs : List String), (s.fields.filter (fun f => !fs.contains f)).contains f = (!fs.contains f && s.fields.contains f) := by
@@ -199,12 +246,6 @@ theorem sync_step (s : KState) (op : Op) (h : FieldsSync s) : FieldsSync (step s
         cases k <;> simp [applyAll, AW.apply, has_delKeys, KState.touch, hf]
     · simp [hg, applyAll, hf]
 
-
-theorem contains_filter (l : List String) (q : String → Bool) (f : String) :
-    (l.filter q).contains f = (q f && l.contains f) := by
-  rw [Bool.eq_iff_iff]
-  simp [List.contains_eq_mem, List.mem_filter, and_comm]
-
 theorem addElems_sim (s t : KState) (h : Sim s t) (g : String) (xs : List ElemIn) :
     Sim (addElems s g xs).1 (addElems t g xs).1 ∧ (addElems s g xs).2 = (addElems t g xs).2 := by
   obtain ⟨hkv, hfs⟩ := h
@@ -226,19 +267,21 @@ theorem sim_step (s t : KState) (op : Op) (h : Sim s t) :
   | addE g es => exact addElems_sim s t h g _
   | bulk g xs => exact addElems_sim s t h g _
   | addGraph g =>
-    obtain ⟨hkv, hfs⟩ := h
-    unfold step
+    rw [step_addGraph, step_addGraph]
+    have hg : hasGraph s g = hasGraph t g := by unfold hasGraph; rw [h.1]
     by_cases hv : validName g = true
-    · simp only [hv, Bool.not_true, Bool.false_eq_true, if_false, KState.touch]
-      refine ⟨⟨by rw [hkv], fun f => ?_⟩, by first | rfl | trivial⟩
-      simp only [List.contains_append, contains_filter, hfs]
-    · simp only [hv, Bool.not_false, if_true]; exact ⟨⟨hkv, hfs⟩, by first | rfl | trivial⟩
+    · simp only [hv, Bool.not_true, Bool.false_eq_true, if_false, hg]
+      refine ⟨?_, trivial⟩
+      by_cases hg' : hasGraph t g = true
+      · simp only [hg', if_true]; exact sim_addGraphCore s t g h
+      · simp only [hg', Bool.false_eq_true, if_false]; exact sim_addGraphCore _ _ g (sim_sweep s t g h)
+    · simp only [hv, Bool.not_false, if_true]; exact ⟨h, trivial⟩
   | delGraph g =>
     obtain ⟨hkv, hfs⟩ := h
     have e1 := step_eq_writes s (.delGraph g)
     have e2 := step_eq_writes t (.delGraph g)
     refine ⟨⟨?_, fun f => ?_⟩, by first | rfl | trivial⟩
-    · rw [← e1, ← e2]; unfold writes; rw [hkv]
+    · rw [← e1, ← e2, writes_delGraph, writes_delGraph, hkv]
     · rw [step_delGraph_fields, step_delGraph_fields, contains_filter, contains_filter, hkv, hfs]
   | delV g id =>
     obtain ⟨hkv, hfs⟩ := h
